@@ -423,6 +423,7 @@ func buildTarget(state *core.BuildState, target *core.BuildTarget, runRemotely b
 			log.Warning("Failed to remove temporary directory for %s: %s", target.Label, err)
 		}
 	}
+	verifhook.Point("build.beforeFinalReport")
 	if outputsChanged {
 		state.LogBuildResult(target, core.TargetBuilt, "Built")
 	} else {
